@@ -41,8 +41,8 @@ Fixpoint calls_s (k : nat) (c : stmt) : bool :=
   | SIf c th el => calls_e k c && (cb th && cb el)
   | SFor _ _ _ body => cb body
   | SForDyn _ e _ body | SForIn _ e body => calls_e k e && cb body
-  | SBreak | SContinue | SPass | SRaise | SReturn None => true
-  | SAssert e | SReturn (Some e) | SExpr e => calls_e k e
+  | SBreak | SContinue | SPass | SRaise | SRaiseR _ | SReturn None => true
+  | SAssert e | SAssertR e _ | SReturn (Some e) | SExpr e => calls_e k e
   | SLog _ args => calls_l k args
   end.
 Fixpoint calls_b (k : nat) (l : list stmt) : bool :=
